@@ -40,7 +40,11 @@ def tlc(chk, name, consts, spec, invs, timeout, workers=None, record=True):
 
 def judge(chk, consts, cases, res):
     cmap = {c["id"]: c for c in cases}
+    seen = set()
     for d in res.get("divergences", []):
+        if (d["id"], d["point"], d["kind"]) in seen:
+            continue        # one report per (case, crash point, kind): a torn frame is cut at many offsets
+        seen.add((d["id"], d["point"], d["kind"]))
         c = cmap.get(d["id"], {})
         div = {"kind": d["kind"], "op": {"op": d["point"]}, "diff": (d.get("diff") or []) + [d.get("detail", "")]}
         beh = {"steps": [{"op": o} for o in c.get("ops", [])]}
@@ -67,9 +71,13 @@ def run(tier):
         tlc(chk, "MC_Crash_graph", graph, "SpecC", invs, 3000)
         tlc(chk, "MC_Crash_seeded", seeded, "SpecC", invs, 3000)
     plans = []
+    MID_OPS = ("VDeleteIndex", "VCompress", "VImportCommit")
     for name, consts, n in (("base", dict(base, MaxOps=2 if quick else 3), 70 if quick else 1500),
                             ("graph", dict(graph, MaxOps=2 if quick else 3), 40 if quick else 1000),
-                            ("seeded", dict(seeded, MaxOps=2), 40 if quick else 800)):
+                            ("seeded", dict(seeded, MaxOps=2), 40 if quick else 800),
+                            # crash points INSIDE an index drop, a compression and an import commit (after a snapshot or not)
+                            ("mid_base", dict(ec.SEEDED_BASE, MaxOps=2 if quick else 3, MaxRej=0), 40 if quick else 1500),
+                            ("mid_import", dict(ec.IMPORT, MaxOps=2 if quick else 3, MaxRej=0), 30 if quick else 1500)):
         r = tlc(chk, "MC_Crash_corpus_" + name, consts, "SpecCorpusC", [], 1800, workers=4, record=False)
         chk.cov["tlc_runs"].append({"config": "MC_Crash_corpus_" + name, "distinct_states": r.distinct, "corpus_records": len(r.corpus), "wall_s": round(r.wall, 1)})
         # the model may place a flush anywhere; the harness does not force flushes, so per history keep the
@@ -89,6 +97,8 @@ def run(tier):
                 if pre:
                     x["mid"] = pre["between"] + x["between"] + [pre["early"], pre["snap_renamed"], pre["snap_done"]]
         recs = list(best.values())
+        if name.startswith("mid_"):
+            recs = [x for x in recs if x["ops"][-1].get("op") in MID_OPS and x.get("mid")]
         # prefer states with something at stake: a non-empty log or a snapshot-worthy state
         recs.sort(key=lambda x: json.dumps(x["ops"], sort_keys=True))
         if len(recs) > n:
@@ -108,10 +118,13 @@ def run(tier):
             chk.infra.append("crash replay error: " + e)
         judge(chk, consts, cases, res)
         total_imgs += res.get("images", 0)
+        for k, v in (res.get("point_counts") or {}).items():
+            points[k] = points.get(k, 0) + v
         chk.cov["evaluations"] += res.get("checks", 0)
         chk.cov["traces_validated_against_impl"] += res.get("cases", 0)
         chk.cov["torn_offsets"] = chk.cov.get("torn_offsets", 0) + res.get("torn_offsets", 0)
     chk.cov["crash_images"] = total_imgs
+    chk.cov["crash_images_per_point"] = dict(sorted(points.items()))
     chk.cov["distinct_nontrivial"] = chk.cov["traces_validated_against_impl"]
     chk.cov["rule"] = ("one case per sampled reachable pre-crash state of Crash.tla (history + admissible outcome per crash point); each is executed on the "
                        "real engine and crash images are taken at: the journal write of the last call, between calls, every byte offset (thorough) / sampled offsets "
